@@ -144,7 +144,6 @@ pub struct AcceptState {
 pub struct AcceptDriver {
     accept: Accept,
     sockets: Box<[ServerSocketInfo]>,
-    cmd_rx: UnboundedReceiver<ServerCommand>,
     waker: WakerQueue,
     exited: bool,
 }
@@ -155,7 +154,7 @@ impl AcceptDriver {
     pub fn new(
         listeners: Vec<ListenerSpec>,
         make_handles: impl FnOnce(&WakerHandle) -> Vec<AcceptHandle>,
-    ) -> io::Result<Self> {
+    ) -> io::Result<(Self, FaultedRx)> {
         let (cmd_tx, cmd_rx) = unbounded_channel();
         let poll = Poll::new()?;
         let waker_queue = WakerQueue::new(poll.registry())?;
@@ -185,7 +184,7 @@ impl AcceptDriver {
             handles.into_iter().map(|h| h.0).collect(),
             ServerHandle::new(cmd_tx),
         )?;
-        Ok(AcceptDriver { accept, sockets, cmd_rx, waker: waker_queue, exited: false })
+        Ok((AcceptDriver { accept, sockets, waker: waker_queue, exited: false }, FaultedRx(cmd_rx)))
     }
 
     /// handle on the waker queue
@@ -228,16 +227,31 @@ impl AcceptDriver {
         }
     }
 
-    /// `WorkerFaulted(idx)` commands the accept loop has sent to the server so far
-    pub fn drain_faulted(&mut self) -> Vec<usize> {
+    /// raw fd of listener `token` (for [`inject_accept_error_fd`])
+    pub fn listener_fd(&self, token: usize) -> i32 {
+        crate::socket::verif_inject::fd(&self.sockets[token].lst)
+    }
+}
+
+/// The server side of the command channel the accept loop reports faults on.
+pub struct FaultedRx(UnboundedReceiver<ServerCommand>);
+
+impl FaultedRx {
+    /// `WorkerFaulted(idx)` commands the accept loop has sent since the last call
+    pub fn drain(&mut self) -> Vec<usize> {
         let mut out = vec![];
-        while let Ok(cmd) = self.cmd_rx.try_recv() {
+        while let Ok(cmd) = self.0.try_recv() {
             if let ServerCommand::WorkerFaulted(idx) = cmd {
                 out.push(idx);
             }
         }
         out
     }
+}
+
+/// the next `accept()` on the listener with raw fd `fd` (in this thread) fails with `err`
+pub fn inject_accept_error_fd(fd: i32, err: io::Error) {
+    crate::socket::verif_inject::inject_fd(fd, err)
 }
 
 /// the waker token as a plain number
